@@ -313,7 +313,10 @@ def c01(tier):
     c = Check("C01", tier, "model_checking")
     mlstring_mc_and_replay(c, tier)
     comment_mc_and_replay(c, tier)
-    c.explore(basic_corpus(tier), "corpus", ["C01"], sample_cap=Q(tier, 250, 1500))
+    tasks = basic_corpus(tier)
+    tasks += program_tasks(tier, "six", [COMMENTS, DIRECTIVES, CRCOMMENTS, REGIONS], cfg_mode="rotate", sample_every=Q(tier, 499, 4999))
+    tasks += mlshape_tasks(tier, "six", cfg_mode="rotate", sample_every=Q(tier, 997, 9973))
+    c.explore(tasks, "corpus", ["C01"], sample_cap=Q(tier, 250, 1500))
     return c.finish(
         rule="token soup (exhaustive to length 2 over the full alphabet, 3 over the structural one; thorough 3 full), truncated and spliced seeds, random walks, seeds; rotating configurations. "
              "The non-blank sequence of input and output is compared on every call; TLC re-decides C01 (Props.tla) on the sampled and on all flagged sessions.")
@@ -481,7 +484,7 @@ def gen_programs(tier, which=("file", "stmts", "types", "routine")):
     key = (tier, tuple(which))
     if key in _progs:
         return _progs[key]
-    num = Q(tier, {"file": 500, "stmts": 700, "types": 300, "routine": 300}, {"file": 6000, "stmts": 8000, "types": 3000, "routine": 3000})
+    num = Q(tier, {"file": 500, "stmts": 700, "types": 300, "routine": 300}, {"file": 20000, "stmts": 30000, "types": 12000, "routine": 12000})
     progs, seen = [], set()
     cov = {}
     for w in which:
@@ -552,6 +555,8 @@ REGIONS3 = {"mode": 1, "regions": True, "regions2": True, "comments": True}
 
 def program_tasks(tier, cfgs, variants, alts=(), chunks=48, **kw):
     path, n = gen_programs(tier)
+    if tier == "thorough":
+        variants = list(variants) * 2        # every layout family under two decoration / spacing seeds
     params = {"path": path, "variants": [[SEED * 100 + i, SEED * 1000 + i, v] for i, v in enumerate(variants)], "alts": [[SEED * 7 + i, m] for i, m in enumerate(alts)]}
     total = n * len(variants)
     return split_tasks("programs", params, total, [], cfgs, chunks=chunks, **kw)
@@ -654,7 +659,7 @@ def mlstring_mc_and_replay(c, tier):
 def comment_mc_and_replay(c, tier):
     """MC of the comment / directive normalisations (Comment.tla) and replay of every enumerated token."""
     c.mc("MC_Comment", "MC_Comment_bug.cfg", expect_violation=True, workers=4, timeout=600)
-    for name in Q(tier, ["line4", "doc3", "sep", "dir5"], ["line5", "doc3", "sep", "dir6"]):
+    for name in Q(tier, ["line4", "doc3", "sep", "dir5", "pdir4", "cond_directive", "cond_pdirective"], ["line5", "doc3", "sep", "dir6", "pdir4", "cond_directive", "cond_pdirective"]):
         r = c.mc("MC_Comment", f"MC_Comment_{name}.cfg", workers=8, timeout=3000)
         beh = [p for t, p in r["replay"]]
         bf = os.path.join(WORK, f"{c.prop}_comment_{name}.beh.ndjson")
